@@ -6,7 +6,7 @@ from .. import core
 from ..core import Script, Rng
 from ..stage import LineStage, replay_line
 from . import ref_gen
-from .common import mode_tok
+from .common import mode_tok, pat, hexs
 
 ARTEFACTS = ["G1-consts", "G2-ref-compress", "G5-vectors", "G7-ref"]
 EXTRA_PROPS = [("B3.Props.C15T", "B3/Props/C15T.lean")]   # theorems about the code translated from the sources
@@ -89,6 +89,17 @@ def stages(tier, seed, witness_search=False):
             if chunks <= 520:
                 ops += [f"R new b {mode}"] + [f"R upd b pats {min(65536, L - o)} {sd} {o}" for o in range(0, L, 65536)] + ["R fin b 32"]
             scripts.append(Script(ops, tags=("deep-tree", f"{chunks}ch")))
+    # several derive-key hashers in a row on one thread with contexts of equal length that share a long prefix (64, 100, 128,
+    # 1024 bytes): a result must not depend on which contexts were used before
+    from .common import hexs
+    for plen, total in [(64, 66), (64, 80), (65, 67), (100, 102), (128, 130), (1024, 1100), (32, 34), (63, 64)]:
+        base = bytes(rng.randrange(32, 127) for _ in range(plen))
+        ctxs = [base + bytes([65 + i]) * (total - plen) for i in range(3)]
+        ops = []
+        for rep in range(2):
+            for i, c in enumerate(ctxs):
+                ops += [f"R new c{i} derive {hexs(c)}", f"R upd c{i} {pat(rng.choice([0, 5, 1025]), rng)}", f"R fin c{i} 32"]
+        scripts.append(Script(ops, tags=("context-sequence",)))
     return [LineStage("reference", scripts), VectorStage()]
 
 
